@@ -223,7 +223,7 @@ var (
 	c17Once  sync.Once
 	c17World *World
 	c17Err   error
-	c17Ids   struct{ Spot, PerpOrder, MTP, LP uint64 }
+	c17Ids   struct{ Spot, PerpOrder, MTP, LP, AttSpot, AttPerp uint64 }
 )
 
 // c17Fixture: a world in which the victim (user0) owns a pending spot order, a pending
@@ -248,7 +248,19 @@ func c17Fixture() (*World, error) {
 		w.EndBlock(5 * time.Second)
 		w.Submit(v, &tstypes.MsgCreateSpotOrder{OrderType: tstypes.SpotOrderType_LIMITBUY, OrderPrice: tstypes.OrderPrice{BaseDenom: ptypes.ATOM, QuoteDenom: ptypes.BaseCurrency, Rate: sdkmath.LegacyNewDec(2)},
 			OrderAmount: sdk.NewInt64Coin(ptypes.BaseCurrency, 700_000_000), OwnerAddress: v.Addr.String(), OrderTargetDenom: ptypes.ATOM})
+		// the first attacker (user1) owns pending orders of its own, so that batches can mix own and foreign ids
+		att := w.Accounts[1]
+		w.Submit(att, &tstypes.MsgCreateSpotOrder{OrderType: tstypes.SpotOrderType_LIMITBUY, OrderPrice: tstypes.OrderPrice{BaseDenom: ptypes.ATOM, QuoteDenom: ptypes.BaseCurrency, Rate: sdkmath.LegacyNewDec(1)},
+			OrderAmount: sdk.NewInt64Coin(ptypes.BaseCurrency, 300_000_000), OwnerAddress: att.Addr.String(), OrderTargetDenom: ptypes.ATOM})
 		blk := w.EndBlock(5 * time.Second)
+		if w.BlockErr != nil {
+			c17Err = w.BlockErr
+			return
+		}
+		w.Submit(att, &tstypes.MsgCreatePerpetualOpenOrder{OwnerAddress: att.Addr.String(), TriggerPrice: tstypes.TriggerPrice{TradingAssetDenom: ptypes.ATOM, Rate: sdkmath.LegacyNewDec(3)},
+			Collateral: sdk.NewInt64Coin(ptypes.BaseCurrency, 400_000_000), TradingAsset: ptypes.ATOM, Position: tstypes.PerpetualPosition_LONG, Leverage: sdkmath.LegacyNewDec(2),
+			TakeProfitPrice: sdkmath.LegacyNewDec(12), StopLossPrice: sdkmath.LegacyZeroDec(), PoolId: 1})
+		w.EndBlock(5 * time.Second)
 		if w.BlockErr != nil {
 			c17Err = w.BlockErr
 			return
@@ -267,7 +279,27 @@ func c17Fixture() (*World, error) {
 			c17Err = fmt.Errorf("victim state incomplete: spot=%d perporder=%d mtp=%d lp=%d; %v", len(s.SpotOrders), len(s.PerpOrders), len(s.MTPs), len(s.LPPositions), logs)
 			return
 		}
-		c17Ids.Spot, c17Ids.PerpOrder, c17Ids.MTP, c17Ids.LP = s.SpotOrders[0].OrderId, s.PerpOrders[0].OrderId, s.MTPs[0].Id, s.LPPositions[0].Id
+		c17Ids.MTP, c17Ids.LP = s.MTPs[0].Id, s.LPPositions[0].Id
+		for _, o := range s.SpotOrders {
+			if o.OwnerAddress == v.Addr.String() {
+				c17Ids.Spot = o.OrderId
+			}
+			if o.OwnerAddress == att.Addr.String() {
+				c17Ids.AttSpot = o.OrderId
+			}
+		}
+		for _, o := range s.PerpOrders {
+			if o.OwnerAddress == v2.Addr.String() {
+				c17Ids.PerpOrder = o.OrderId
+			}
+			if o.OwnerAddress == att.Addr.String() {
+				c17Ids.AttPerp = o.OrderId
+			}
+		}
+		if c17Ids.Spot == 0 || c17Ids.AttSpot == 0 || c17Ids.PerpOrder == 0 || c17Ids.AttPerp == 0 {
+			c17Err = fmt.Errorf("fixture orders incomplete: %+v", c17Ids)
+			return
+		}
 		c17World = w
 	})
 	return c17World, c17Err
@@ -393,13 +425,13 @@ func TestC17(t *testing.T) {
 		case 1:
 			msg = &tstypes.MsgCancelSpotOrder{OwnerAddress: att, OrderId: c17Ids.Spot}
 		case 2:
-			msg = &tstypes.MsgCancelSpotOrders{Creator: att, SpotOrderIds: []uint64{c17Ids.Spot}}
+			msg = &tstypes.MsgCancelSpotOrders{Creator: att, SpotOrderIds: mixedIds(rt, c17Ids.Spot, c17Ids.AttSpot)}
 		case 3:
 			msg = &tstypes.MsgUpdatePerpetualOrder{OwnerAddress: att, OrderId: c17Ids.PerpOrder, TriggerPrice: tstypes.TriggerPrice{TradingAssetDenom: ptypes.ATOM, Rate: rate}}
 		case 4:
 			msg = &tstypes.MsgCancelPerpetualOrder{OwnerAddress: att, OrderId: c17Ids.PerpOrder}
 		case 5:
-			msg = &tstypes.MsgCancelPerpetualOrders{OwnerAddress: att, OrderIds: []uint64{c17Ids.PerpOrder}}
+			msg = &tstypes.MsgCancelPerpetualOrders{OwnerAddress: att, OrderIds: mixedIds(rt, c17Ids.PerpOrder, c17Ids.AttPerp)}
 		case 6:
 			msg = &perptypes.MsgClose{Creator: att, Id: c17Ids.MTP, Amount: amt}
 		case 7:
@@ -440,19 +472,25 @@ func execHandler(w *World, ctx sdk.Context, msg sdk.Msg) (err error, panicked bo
 	return e, false
 }
 
-// mustReject: the handler must fail (error or panic, both roll the tx back) and must not
-// have written anything: the hash over all stores of the context is unchanged even without
-// relying on the rollback.
+// mustReject: the handler must fail (error or panic). Like baseapp.runTx the handler runs on a branch
+// of the state that is written back only on success, so a rejected message leaves the state
+// byte-for-byte unchanged; the hash over all stores is compared before and after to confirm that the
+// rollback path really restores everything the handler may have written before it failed (e.g. a
+// batch cancel that processes its own orders before it meets a foreign one).
 func mustReject(w *World, ctx sdk.Context, msg sdk.Msg) string {
 	before := stateHash(w, ctx)
-	err, _ := execHandler(w, ctx, msg)
+	branch, write := ctx.CacheContext()
+	err, _ := execHandler(w, branch, msg)
+	if err == nil {
+		write()
+	}
 	after := stateHash(w, ctx)
 	url := sdk.MsgTypeURL(msg)
 	if err == nil {
 		return fmt.Sprintf("%s sent by someone who is not the governance authority / not the owner was accepted", url)
 	}
 	if before != after {
-		return fmt.Sprintf("%s was rejected (%v) but only after writing to the store", url, err)
+		return fmt.Sprintf("%s was rejected (%v) but the state changed", url, err)
 	}
 	return ""
 }
@@ -468,4 +506,25 @@ func safeValidateBasic(msg sdk.Msg) (ok bool) {
 		return false
 	}
 	return true
+}
+
+// mixedIds: a batch that always contains the victim's id, optionally the attacker's own id and a
+// non-existent id, in a generated order (own id last, first, ...).
+func mixedIds(rt *rapid.T, victim, own uint64) []uint64 {
+	ids := []uint64{victim}
+	if UniformDraw(rt, "batch/own", 3) > 0 {
+		ids = append(ids, own)
+	}
+	if UniformDraw(rt, "batch/bogus", 4) == 0 {
+		ids = append(ids, 9999)
+	}
+	if UniformDraw(rt, "batch/dup", 5) == 0 {
+		ids = append(ids, own)
+	}
+	// generated permutation
+	for i := len(ids) - 1; i > 0; i-- {
+		j := UniformDraw(rt, "batch/perm", i+1)
+		ids[i], ids[j] = ids[j], ids[i]
+	}
+	return ids
 }
